@@ -628,12 +628,9 @@ class Run:
             steps += 1
             if steps > max_steps:
                 raise RuntimeError("harness: run does not terminate: %r" % (self.summary(),))
-            if self.pending:
-                if len(self.attempts) > horizon:
-                    self.truncated = True
-                    break
-                self._play(self.pending.pop(0))
-                continue
+            if self.pending and len(self.attempts) > horizon:
+                self.truncated = True
+                break
             progressed = False
             for a in self.attempts:
                 if a.link is not None and a.t_end is None:
@@ -644,7 +641,12 @@ class Run:
                         progressed = True
             if self.env.settle():
                 progressed = True
-            if progressed or self.pending:
+            if progressed:
+                continue
+            if self.pending:
+                # connections are answered only after all traffic on older connections has been
+                # exchanged (the previous connection is completely closed by then)
+                self._play(self.pending.pop(0))
                 continue
             nd = self.env.next_deadline()
             if nd is None:
